@@ -467,14 +467,20 @@ class WireModel:
             if "pad_before" in dn:
                 out.append(WField(f["name"] + ".pad_before", "pad", self.int_expr(dn["pad_before"].value, it), cond=cond, line=f["line"]))
             size, elem, count, ty = self.field_size(it, f, dn, side, args)
+            tail_gap = None
             if "pad_size_to" in dn:
                 p = self.int_expr(dn["pad_size_to"].value, it)
                 note = f"pad_size_to={p}"
-                size = p if (p is not None and (size is None or size <= p)) else size
+                if p is not None and size is not None and size < p and elem is None and "map" not in dn:
+                    tail_gap = p - size  # a fixed-size value followed by filler up to p
+                else:
+                    size = p if (p is not None and (size is None or size <= p)) else size
             else:
                 note = None
             wf = WField(f["name"], "data", size, fe, cond, ty, note, elem, count, f["pub"], f["line"], net_zero=("restore_position" in dn))
             out.append(wf)
+            if tail_gap:
+                out.append(WField(f["name"] + ".pad_size_to", "pad", tail_gap, cond=cond, line=f["line"]))
             if "pad_after" in dn:
                 out.append(WField(f["name"] + ".pad_after", "pad", self.int_expr(dn["pad_after"].value, it), cond=cond, line=f["line"]))
         return out
